@@ -113,6 +113,14 @@ fn c07_outcomes(rep: &mut Report, replay: &Option<Value>) {
         Some("x.y.Custom"),
         Some("org.varlink.service.Other"),
         Some(""),
+        // look-alikes of the standard errors: other interface, other case, prefix/suffix of the name
+        Some("x.y.MethodNotFound"),
+        Some("x.y.InvalidParameter"),
+        Some("org.varlink.service.x.InterfaceNotFound"),
+        Some("org.varlink.Service.MethodNotImplemented"),
+        Some("org.varlink.service.MethodNotFoundX"),
+        Some("MethodNotFound"),
+        Some("org.varlink.service.methodnotfound"),
     ];
     let member = |e: Option<&str>| match e {
         Some("org.varlink.service.InterfaceNotFound") => "interface",
@@ -182,7 +190,7 @@ fn c07_outcomes(rep: &mut Report, replay: &Option<Value>) {
                             | ("org.varlink.service.InvalidParameter", ErrorKind::InvalidParameter(s))
                             | ("org.varlink.service.MethodNotFound", ErrorKind::MethodNotFound(s))
                             | ("org.varlink.service.MethodNotImplemented", ErrorKind::MethodNotImplemented(s)) => !good_param || s == "the-thing",
-                            (n, ErrorKind::VarlinkErrorReply(r)) if !n.starts_with("org.varlink.service.I") && !n.starts_with("org.varlink.service.Method") => {
+                            (n, ErrorKind::VarlinkErrorReply(r)) if !["org.varlink.service.InterfaceNotFound", "org.varlink.service.InvalidParameter", "org.varlink.service.MethodNotFound", "org.varlink.service.MethodNotImplemented"].contains(&n) => {
                                 // carries the full reply
                                 let back = serde_json::to_value(r).unwrap();
                                 let norm = |v: &Value| {
